@@ -12,7 +12,7 @@ CLAIMED = ['C01', 'C02', 'C03', 'C04', 'C05', 'C06', 'C07', 'C08', 'C09',
            'C10', 'C11', 'C12', 'C13', 'C15', 'C17', 'C18', 'C19']
 
 TEXT = {
- 'C01': ('seeded deterministic simulation: writer actor -> simulated storage -> reader actor (1-3 interleaved pipelines, drawn block size / stream kind), call-log oracle from an independent reference model',
+ 'C01': ('seeded deterministic simulation: writer actor -> simulated storage -> reader actor (1-3 interleaved pipelines, drawn block size / stream kind incl. real files, gzip, mmap; readers that follow the file while it is written, stepped against the writer by the seeded schedule; short reads inside headers), call-log oracle from an independent reference model',
          'exploration: sampling of call histories x encodings x knobs; a clean batch is evidence over the explored seeds, not proof', '5 (C01)'),
  'C02': ('seeded deterministic simulation: every write() of the writer actor traced on the simulated handle; byte-for-byte comparison with an independent spec serializer + direct grammar checks',
          'exploration over accepted call histories; the oracle is a second implementation of the specification', '5 (C02)'),
@@ -22,19 +22,19 @@ TEXT = {
          'exploration of push/pop histories of the encoding scope up to 12 containers', '5 (C04)'),
  'C05': ('seeded deterministic simulation: DOM builder actor -> to_bytes -> simulated storage -> from_stream; tree model + spec serializer + documented normalisation as oracle; lists edited in place, rejected add_* calls and a tree-shape oracle; second parse after editing the first; DiffX subclasses as loaders',
          'exploration over trees built through the public API; conditional on to_bytes() succeeding', '5 (C05)'),
- 'C06': ('seeded deterministic simulation: editor actor load -> store -> load -> store over canonical (writer) and foreign-producer files; byte identity / content equality per reference parser / fixed point',
+ 'C06': ('seeded deterministic simulation: editor actor load -> store -> load -> store over canonical (writer, object model, reference serializer) and foreign-producer files, through drawn kinds of stream, optionally inspecting every attribute before saving; byte identity / content equality per reference parser / fixed point',
          'exploration', '5 (C06)'),
- 'C07': ('deterministic simulation with fault injection: producer crash / torn write / transfer cut at EVERY byte of each generated file, reader overtaking writer, length faults; prefix-of-intact-records oracle',
+ 'C07': ('deterministic simulation with fault injection: producer crash / torn write / transfer cut at EVERY byte of each generated file, reader overtaking writer, a long-lived reader following the growing file under a seeded writer/reader schedule, length faults; prefix-of-intact-records oracle',
          'fault_enumeration: the cut sweep is complete per file (every crash point 0..len) for files up to 4000 bytes whose sweep fits a deterministic cost bound (counted in the evidence probes), thinned or gridded otherwise; files and length faults are sampled', '6 (C07)'),
- 'C08': ('deterministic simulation with fault injection: byte/token/line-level storage corruption, random bytes, DiffX-shaped soup, metadata nested beyond the recursion limit, injected read / seek errors, forward-only streams, a sniffing reader_cls hook; three consumers (stepped reader, from_bytes, from_stream with close tracking); error-contract oracle',
+ 'C08': ('deterministic simulation with fault injection: byte/token/line-level storage corruption, random bytes, DiffX-shaped soup, metadata nested beyond the recursion limit, injected read / seek errors, forward-only streams, a sniffing reader_cls hook; three consumers (stepped reader - also rewound and iterated again -, from_bytes, from_stream with close tracking over drawn kinds of stream); error-contract oracle',
          'exploration of the corruption space; termination enforced by a stream-event cap and a CPU cap', '6 (C08)'),
  'C09': ('deterministic simulation with fault injection on the caller side: arbitrary call sequences with rejected calls (38 bad-argument variants) and injected write errors; hierarchy model, zero-write atomicity on the traced handle, twin run of accepted calls only; exhaustive sweep of short call sequences',
          'exploration + exhaustive sub-space (all call sequences up to a bounded length)', '6 (C09)'),
  'C10': ('seeded simulation of a byzantine producer emitting section ids in arbitrary order (with header variations, blank lines, very long headers), preceded by noise actors that share the process-global tables (a writer whose calls are partly rejected, a DOM user); short reads inside header lines, the same reader iterated twice, legal sequences also through the object-model loader with a reader_cls hook; successor relation typed in from the spec as oracle; process-global-state guard; exhaustive sweep of every candidate id after every legal prefix up to a bounded length',
          'exploration + exhaustive sub-space; verdict is a function of the id sequence (fit: weak-moderate)', '6 (C10)'),
- 'C11': ('seeded storage damage confined to the option string of one header; reference header grammar as oracle; exhaustive sweep of all option strings up to a bounded length over a 16-symbol alphabet',
+ 'C11': ('seeded storage damage confined to the option string of one header; reference header grammar as oracle; the refusing reader object iterated again; exhaustive sweep of all option strings up to a bounded length over a 16-symbol alphabet',
          'exploration + exhaustive sub-space; verdict is a function of one line (fit: weak, stated in DESIGN.md)', '6 (C11)'),
- 'C12': ('seeded simulation of version skew: a newer producer adds unknown options to headers of well-formed files; metamorphic oracle (records + exactly the added keys)',
+ 'C12': ('seeded simulation of version skew: a newer producer adds unknown options (also longer than a read-ahead block, read through short-reading streams) to headers of well-formed files; metamorphic oracle (records + exactly the added keys)',
          'exploration', '5 (C12)'),
  'C13': ('seeded deterministic simulation: analyst actor running generate_stats at file/change/tree level interleaved with edits on trees with ground-truth diffs; stats model applied to the snapshot before each step',
          'exploration', '7 (C13)'),
